@@ -401,7 +401,9 @@ impl Schema<Type::string> {
 impl Schema<Type::object> {
     pub fn property(mut self, name: &'static str, schema: impl Into<SchemaRef>) -> Self {
         self.raw.properties.insert(name, schema.into());
-        self.raw.required.push(name);
+        if !self.raw.required.contains(&name) {// `required` must be a set
+            self.raw.required.push(name);
+        }
         self
     }
     pub fn optional(mut self, name: &'static str, schema: impl Into<SchemaRef>) -> Self {
